@@ -69,6 +69,9 @@ func extractMsg(m util.Message) *spec.Node {
 	switch v := m.(type) {
 	case *common.Hello:
 		n := spec.N("msg.hello", spec.U("xid", uint64(v.Xid)))
+		if v.Version != spec.OFVersion {
+			n.With(spec.U("version", uint64(v.Version)))
+		}
 		for _, e := range v.Elements {
 			vb, ok := e.(*common.HelloElemVersionBitmap)
 			if !ok {
